@@ -1278,7 +1278,114 @@ func sdGateway(o *common.Out, id string, noJSONRPC, noGateway bool) {
 	o.ImplOnly(id, abstract, true)
 }
 
+// a PostConnClose plugin whose first call parks until released
+type parkClosePlugin struct {
+	once    sync.Once
+	entered chan struct{}
+	release chan struct{}
+}
+
+func (p *parkClosePlugin) HandleConnClose(conn net.Conn) bool {
+	first := false
+	p.once.Do(func() { first = true })
+	if first {
+		close(p.entered)
+		<-p.release
+	}
+	return true
+}
+
+// sdTogether: Shutdown and Close overlap while one of them stands inside a connection-close plugin: both return, nobody
+// panics, the serve loop returns the server-closed error.  Oracle only.  case: together|<closeFirst>
+func sdTogether(o *common.Out, id string, closeFirst bool) {
+	abstract := fmt.Sprintf("together|%v", closeFirst)
+	o.Begin(id, abstract)
+	o.Count("shutdown-together-with-close")
+	s := server.NewServer()
+	pp := &parkClosePlugin{entered: make(chan struct{}), release: make(chan struct{})}
+	s.Plugins.Add(pp)
+	s.RegisterName("Arith", &Arith{h: newHandlerEnv(false)}, "")
+	ln := newPipeListener()
+	served := make(chan error, 1)
+	go func() { served <- s.ServeListener("vpipe", ln) }()
+	<-s.Started
+	pc, err := ln.dial()
+	if err != nil {
+		o.Fail(id, "rig", err.Error(), abstract)
+		return
+	}
+	defer pc.Close()
+	// one heartbeat round trip: the connection is being served
+	var h [12]byte
+	h[0], h[2], h[3] = 8, 0x40, 1<<4
+	pc.Write(refcodec.Build(h, nil, nil, nil, []byte("hb")))
+	buf := make([]byte, 64)
+	pc.SetReadDeadline(time.Now().Add(2 * time.Second))
+	pc.Read(buf)
+	pc.SetReadDeadline(time.Time{})
+	call := func(what string, f func() error, out chan string) {
+		go func() {
+			defer func() {
+				if r := recover(); r != nil {
+					out <- fmt.Sprintf("%s panicked: %v", what, r)
+				}
+			}()
+			f()
+			out <- ""
+		}()
+	}
+	a, b := make(chan string, 1), make(chan string, 1)
+	firstName, secondName := "Shutdown", "Close"
+	first := func() error { return s.Shutdown(context.Background()) }
+	second := func() error { return s.Close() }
+	if closeFirst {
+		firstName, secondName = secondName, firstName
+		first, second = second, first
+	}
+	call(firstName, first, a)
+	select {
+	case <-pp.entered:
+	case <-time.After(3 * time.Second):
+		close(pp.release)
+		o.Fail(id, "rig", firstName+" never reached the connection-close plugin", abstract)
+		return
+	}
+	call(secondName, second, b)
+	select { // the second call runs as far as it can: to its end, or to the lock the first one holds
+	case r := <-b:
+		b <- r
+	case <-time.After(40 * time.Millisecond):
+	}
+	close(pp.release)
+	for _, w := range []struct {
+		name string
+		ch   chan string
+	}{{firstName, a}, {secondName, b}} {
+		select {
+		case r := <-w.ch:
+			if r != "" {
+				o.Fail(id, "panic", r+" (running together with the other call)", abstract)
+			}
+		case <-time.After(5 * time.Second):
+			o.Fail(id, "shutdown-hangs", w.name+" did not return", abstract)
+		}
+	}
+	select {
+	case e := <-served:
+		if e != server.ErrServerClosed {
+			o.Fail(id, "serve-return", fmt.Sprintf("the serve loop returned %v", e), abstract)
+		}
+	case <-time.After(3 * time.Second):
+		o.Fail(id, "serve-return", "the serve loop did not return", abstract)
+	}
+	o.ImplOnly(id, abstract, true)
+}
+
 func runShutdown(r *common.Rand, tier string, o *common.Out, replay string) {
+	if strings.HasPrefix(replay, "together|") {
+		sdTogether(o, "replay", strings.HasSuffix(replay, "true"))
+		return
+	}
 	if strings.HasPrefix(replay, "gw|") {
 		p := strings.Split(replay, "|")
 		sdGateway(o, "replay", p[1] == "true", p[2] == "true")
@@ -1290,6 +1397,8 @@ func runShutdown(r *common.Rand, tier string, o *common.Out, replay string) {
 		sdRunCase(o, "replay-registry-down", decSdCase(replay))
 		return
 	}
+	sdTogether(o, "tg0", false)
+	sdTogether(o, "tg1", true)
 	for gi, cfg := range [][2]bool{{false, false}, {true, false}, {false, true}, {true, true}} {
 		sdGateway(o, fmt.Sprintf("gw%d", gi), cfg[0], cfg[1])
 	}
